@@ -333,7 +333,9 @@ def fam_ovf(rng, tier):
         L1 = g.lab()
         g.func("%s_%s" % (op, br), "%s, i64, i64:a, i64:b" % ("i32" if op.endswith("s") else "i64"),
                ["local i64:r", "%s r, a, b" % op, "%s %s" % (br, L1), "ret r, 0", "%s:" % L1, "add r, r, 1", "ret r, 1"])
-    for op, br in [("mulo", "bo"), ("umulo", "ubo"), ("mulos", "bno"), ("umulos", "ubno")]:
+    # multiply-with-overflow on symbolic operands through BOTH engines: no verdict in 900 s at any level (measured, z3 and SAT back ends);
+    # the flag semantics of the mulo family are decided per engine by C02 (generated-code leg); here only with VERIF_DEEP=1
+    for op, br in ([("mulo", "bo"), ("umulo", "ubo"), ("mulos", "bno"), ("umulos", "ubno")] if os.environ.get("VERIF_DEEP") == "1" else []):
         L1 = g.lab()
         g.func("%s_%s" % (op, br), "%s, i64, i64:a, i64:b" % ("i32" if op.endswith("s") else "i64"),
                ["local i64:r", "%s r, a, b" % op, "%s %s" % (br, L1), "ret r, 0", "%s:" % L1, "ret r, 1"], heavy="1", tier="thorough")
